@@ -3,7 +3,7 @@ from __future__ import annotations
 
 import numpy as np
 
-from vf import gen
+from vf import gen, plumbing
 
 PID = "C01"
 ANCHORS = [
@@ -26,7 +26,17 @@ ASSUMPTIONS = ["tolerance max(1e-9, 1e3*eps*cond(H)); cases with cond(H) > 1e8 a
 NEUTRAL = dict(conj=False, xi_max=1.0, mpc_lim=0.0, mpd_lim=10.0, cov_max=1e9)
 
 
+PLUMB_CLASSES = ['SSIcov', 'SSIdat']
+PLUMB_FIELDS = ['Fn_poles', 'Xi_poles', 'Phi_poles', 'Lambds', 'Fn', 'Xi', 'Phi', 'order_out']
+REQUIRED_MONITORS = list(REQUIRED_MONITORS) + [f"plumbing:{s_}" for s_ in plumbing.SCENARIOS]
+REQUIRED_STATES = list(REQUIRED_STATES) + [f"plumbing scenario {s_}" for s_ in plumbing.SCENARIOS]
+
+
 def cases(tier, seed):
+    return _cases(tier, seed) + plumbing.cases(len(plumbing.SCENARIOS) * len(PLUMB_CLASSES) * (1 if tier == "quick" else 6), PLUMB_CLASSES)
+
+
+def _cases(tier, seed):
     n = 320 if tier == "quick" else 6000
     out = []
     for k in range(n):
@@ -273,6 +283,8 @@ def run_fn(ctx, case, rng):
 
 
 def run_case(ctx, case):
+    if case["cls"] == "plumbing":
+        return plumbing.run_case(ctx, case, gen.rng_of(case), PLUMB_FIELDS)
     rng = gen.rng_of(case)
     if case["cls"] == "setup_neutral":
         run_setup(ctx, case, rng, False)
